@@ -19,6 +19,8 @@ VERIF = os.path.dirname(os.path.dirname(os.path.abspath(__file__)))
 PY = os.path.join(VERIF, ".venv", "bin", "python")
 REPO = os.environ.get("VF_REPO", "/repo")
 KNOWN = os.path.join(VERIF, "known_findings.json")
+EVIDENCE_DIR = os.environ.get("VF_EVIDENCE_DIR") or os.path.join(VERIF, "evidence")
+REPLAY_DIR = os.environ.get("VF_REPLAY_DIR") or os.path.join(VERIF, "replays")
 NCPU = int(os.environ.get("VF_JOBS", "0")) or min(16, os.cpu_count() or 4)
 
 EXIT_OK, EXIT_VIOLATION, EXIT_HARNESS = 0, 1, 3
@@ -283,13 +285,13 @@ class Run:
     # ---- reporting ---------------------------------------------------------------------------
     def finish(self, meta):
         exit_code = EXIT_OK
-        os.makedirs(os.path.join(VERIF, "evidence"), exist_ok=True)
+        os.makedirs(EVIDENCE_DIR, exist_ok=True)
         for r in self.results:
             for k in r.get("known", []):
                 self.note_known(k)
         for r in self.results:
             if r["status"] == "violated":
-                d = os.path.join(VERIF, "replays", self.pid)
+                d = os.path.join(REPLAY_DIR, self.pid)
                 os.makedirs(d, exist_ok=True)
                 h = hashlib.sha1(json.dumps(r.get("cex"), sort_keys=True, default=repr).encode()).hexdigest()[:10]
                 path = os.path.join(d, "%s-%s.json" % (re.sub(r"[^A-Za-z0-9_.]", "_", r["oid"]), h))
@@ -366,7 +368,7 @@ class Run:
             "violations": len(self.violations) + len(self.witness.get("violation_paths", [])),
         }
         ev["coverage"].update(self.extra)
-        with open(os.path.join(VERIF, "evidence", self.pid + ".json"), "w") as f:
+        with open(os.path.join(EVIDENCE_DIR, self.pid + ".json"), "w") as f:
             json.dump(ev, f, indent=1, default=repr)
         print("[%s] tier=%s obligations=%d discharged=%d inconclusive=%d known=%d violations=%d paths=%d queries=%d solver=%.1fs wall=%.1fs" % (
             self.pid, self.tier, n, dis, len(inconc), len(self.known_hits), ev["violations"], paths, queries,
